@@ -268,13 +268,13 @@ pub fn run(ctx: &Ctx) -> i32 {
     }
     acc.merge(vb);
     let meta = Meta {
-        rule: "every macro program of depth <= 2 (thorough: <= 3 on 5 specs) over the 67-macro alphabet (calls of all kinds to returning / reverting / halting / writing / self-destructing / nested / code-less / precompile / delegated targets with and without value, creates with 9 init codes, storage, transient storage, logs, memory, self-destructs) x 14 transaction variants (legacy, value, EIP-1559 capped and uncapped, tight gas, sender = coinbase, access list, blob, create, set-code, zero price, calldata), and every opcode byte / every 4th (quick) or every (thorough) opcode pair bare and behind 17 operands x 4 transaction variants, on all 19 mainnet specs: executed by revm and by the reference EVM R; distinct = distinct (spec, outcome, gas used); traces_validated_against_impl = enumerated cases compared with the implementation + shipped state-test vectors on which R reproduces the expected post-state root and logs hash".into(),
+        rule: "every macro program of depth <= 2 (thorough: <= 3 on 5 specs) over the 69-macro alphabet (calls of all kinds to returning / reverting / halting / writing / self-destructing / nested / code-less / precompile / delegated targets with and without value, creates with 9 init codes, storage, transient storage, logs, memory, self-destructs) x 15 transaction variants (legacy, value, EIP-1559 capped and uncapped, tight gas, sender = coinbase, access list, blob, create, set-code, zero price, calldata), and every opcode byte / every 4th (quick) or every (thorough) opcode pair bare and behind 17 operands x 4 transaction variants, on all 19 mainnet specs: executed by revm and by the reference EVM R; distinct = distinct (spec, outcome, gas used); traces_validated_against_impl = enumerated cases compared with the implementation + shipped state-test vectors on which R reproduces the expected post-state root and logs hash".into(),
         assumptions: vec![
             "R shares ruint arithmetic, keccak256 and the precompile bodies with revm (checked separately by C03 / C23) and nothing else".into(),
             "R is bound to the specification by the execution-spec state tests shipped in /repo/tests: it must reproduce every vector it runs (see counters)".into(),
             "CONSTANTINOPLE is executed with Petersburg rules on both sides; OSAKA / EOF has no reference".into(),
         ],
-        bounds: json!({"specs": specs.len(), "macro_depth": 2, "tx_variants": 14}),
+        bounds: json!({"specs": specs.len(), "macro_depth": 2, "tx_variants": 15}),
         min_distinct: 1000,
         exhaustive: true,
         explanation: "outcome class, gas used, return data, logs and full post-state equal the reference EVM on every enumerated case".into(),
